@@ -330,8 +330,10 @@ def r13_f(ctx):
             line_var = n.targets[0].id
     # every result takes its line from that one search
     stores = sum(1 for n in ast.walk(fd.node) if isinstance(n, ast.Name) and isinstance(n.ctx, ast.Store) and n.id == line_var)
+    nested = {id(x) for d in ast.walk(fd.node) if isinstance(d, (ast.FunctionDef, ast.Lambda)) and d is not fd.node
+              for x in ast.walk(d)}
     for n in ast.walk(fd.node):
-        if isinstance(n, ast.Return):
+        if isinstance(n, ast.Return) and id(n) not in nested:
             v = n.value
             first = v.elts[0] if isinstance(v, ast.Tuple) and v.elts else None
             ok_r = first is not None and ((isinstance(first, ast.Name) and first.id == line_var and stores == 1) or first in calls)
@@ -460,6 +462,16 @@ def r13_h(ctx):
                 and isinstance(a.targets[0].elts[1], ast.Name):
             second = a.targets[0].elts[1].id
     for c in ncalls:
+        if len(c.args) == 1 and isinstance(c.args[0], ast.Starred) and c.args[0].value is rcalls[0] and not c.keywords:
+            # TexNode(*read(...)): the pair (root, source) is spread over (expr, src)
+            node_cls = repo.need_cls('data.TexNode')
+            ps_ = [a.arg for a in node_cls.methods['__init__'][-1].node.args.args][1:3]
+            ok = ps_ == ['expr', 'src']
+            rr.ob(ok, {'root_node_src': 'TexNode(*read(...))'})
+            if not ok:
+                rr.fail(Finding('R13.h', '__init__', ep.qual, c, 'the pair returned by read() is spread over the wrong '
+                                'constructor parameters', line=c.lineno))
+            continue
         srcarg = next((k.value for k in c.keywords if k.arg == 'src'), c.args[1] if len(c.args) > 1 else None)
         stores = sum(1 for x in ast.walk(ep.node) if isinstance(x, ast.Name) and x.id == second and isinstance(x.ctx, ast.Store))
         ok = second is not None and isinstance(srcarg, ast.Name) and srcarg.id == second and stores == 1
